@@ -229,6 +229,19 @@ def run(ctx):
     says = [t for t in lits if re.search(r"maximum call depth", t)]
     ctx.inst("C18.R5", "exit#message", True if says else None, "messages built in FunctionDef::call that name the call depth: %s" % (says or "none found (the text may be built elsewhere)"), fc.loc())
 
+    # ---------------- R6 one machine frame per counted level
+    ctx.rule("C18.R6", "no function on the evaluation cycle (evaluate_ast <-> FunctionDef::call and what lies between) is force-inlined: `#[inline(always)]` merges a callee's frame into every caller, so the stack consumed per counted call grows with each operator level and the 1000-call budget no longer fits the stack", floor=5)
+    fwd = cg.reachable_from([EVAL])
+    cyc = sorted(n_ for n_ in fwd if n_ in cg.fns and n_.startswith(CORE) and EVAL in cg.reachable_from([n_]) and "closure" not in n_)
+    forced = []
+    for n_ in cyc:
+        hf_ = core.hir.get(n_)
+        inl = (hf_ or {}).get("inline")
+        if hf_ is None or inl is None:
+            continue
+        ctx.inst("C18.R6", "cycle:" + n_.replace(CORE, ""), inl != "Always", "inline attribute: %s" % inl, H.loc(hf_["body"]) if hf_.get("body") else None)
+    ctx.units["functions_on_the_evaluation_cycle"] = len(cyc)
+
     ctx.rule("C18.R3s", "the evaluator runs on the main thread (8 MiB default) or on a thread whose explicit stack size is at least that; recorded for the stack budget", floor=1)
     sizes = []
     for name, f in cg.fns.items():
